@@ -744,3 +744,91 @@ pub fn selftest(rec: &mut Rec, lm: &Landmarks, rng: &mut Rng) {
         let _ = g.any_i64(rng);
     }
 }
+
+// ------------------------------------------------------------------ L2: TLC-generated behaviours
+
+/// scaled value (NPC = 12, centuries -3..2) -> a real (centuries, nanoseconds) of the same case class
+pub fn concretise(v: i64, variant: u64) -> (i16, u64) {
+    const RES: [u64; 12] = [0, 1, 2, 1_000, 1_000_000_000, NPC / 2 - 1, NPC / 2, NPC / 2 + 1, 86_400_000_000_000, NPC - 1_000, NPC - 2, NPC - 1];
+    if v >= 36 {
+        return (32767, NPC);
+    }
+    let cs = v.div_euclid(12);
+    let r = v.rem_euclid(12) as usize;
+    let c: i16 = match cs {
+        -3 => -32768,
+        -2 => [-2i16, -32767, -3, -100][(variant % 4) as usize],
+        -1 => -1,
+        0 => 0,
+        1 => [1i16, 2, 99, 32766][(variant % 4) as usize],
+        _ => 32767,
+    };
+    (c, RES[r])
+}
+pub fn concretise_factor(q: i64) -> i64 {
+    let m: [i64; 8] = [0, 1, 2, 3, 1000, 1 << 31, NPC as i64, i64::MAX];
+    let a = m[q.unsigned_abs() as usize % 8];
+    if q < 0 {
+        if a == i64::MAX {
+            i64::MIN
+        } else {
+            -a
+        }
+    } else {
+        a
+    }
+}
+
+/// replay behaviours printed by TLC from spec/Gen_Duration.tla (one JSON array of steps per line)
+pub fn l2_durations(rec: &mut Rec, path: &str) -> u64 {
+    let txt = match std::fs::read_to_string(path) {
+        Ok(t) => t,
+        Err(_) => return 0,
+    };
+    let mut m = DM::new(rec);
+    let mut nb = 0u64;
+    for line in txt.lines() {
+        let v: serde_json::Value = match serde_json::from_str(line) {
+            Ok(v) => v,
+            Err(_) => continue,
+        };
+        nb += 1;
+        // every behaviour starts from a defined register
+        m.load(0, 0);
+        for (k, step) in v.as_array().unwrap().iter().enumerate() {
+            let op = step["op"].as_str().unwrap_or("");
+            let a: Vec<i64> = step["a"].as_array().map(|x| x.iter().map(|y| y.as_i64().unwrap_or(0)).collect()).unwrap_or_default();
+            let var = nb + k as u64;
+            let dur = |x: i64| {
+                let (c, n) = concretise(x, var);
+                mk(c, n)
+            };
+            match op {
+                "load" => {
+                    let (c, _) = concretise(a[0] * 12, var);
+                    let extra = (a[1] / 12) as u64;
+                    let (_, n) = concretise(a[1] % 12, var);
+                    m.load(c, extra * NPC + n);
+                }
+                "add" => m.add(dur(a[0]), k % 2 == 0),
+                "sub" => m.sub(dur(a[0]), k % 2 == 0),
+                "cmp" => m.cmp(dur(a[0])),
+                "neg" => m.neg(),
+                "abs" => m.abs(),
+                "total" => {
+                    m.total();
+                    m.parts();
+                    m.try_trunc();
+                }
+                "decompose" => m.decompose(),
+                "mul" => m.mul_i64(concretise_factor(a[0]), k % 2 == 0),
+                "div" => m.div_i64(concretise_factor(a[0])),
+                "floor" => m.snap(0, dur(a[0])),
+                "ceil" => m.snap(1, dur(a[0])),
+                "round" => m.snap(2, dur(a[0])),
+                _ => {}
+            }
+        }
+    }
+    nb
+}
